@@ -12,96 +12,158 @@ pub struct Node(pub Value);
 fn s_of(v: &Value) -> String {
     String::from_utf8(bytes_of(v)).expect("utf8 string")
 }
-fn kids(v: &Value, k: &str) -> Vec<Node> {
-    list(v, k).iter().map(|c| Node(c.clone())).collect()
-}
-fn refs(ns: &[Node]) -> Vec<&dyn Aml> {
-    ns.iter().map(|n| n as &dyn Aml).collect()
-}
 fn path(v: &Value) -> aml::Path {
     aml::Path::new(&s_of(get(v, "path")))
 }
 
+macro_rules! keep {
+    ($arena:expr, $e:expr) => {{
+        let o = $e;
+        $arena.keep(o)
+    }};
+}
+
+/// Objects built for one program: the crate's containers borrow their children (`&'a dyn Aml`), so every object is
+/// boxed, leaked for the duration of the program and released afterwards (parents before children).
+pub struct Arena(Vec<*mut dyn Aml>);
+impl Arena {
+    pub fn new() -> Self {
+        Arena(Vec::new())
+    }
+    fn keep<T: Aml + 'static>(&mut self, t: T) -> &'static dyn Aml {
+        let b: Box<dyn Aml> = Box::new(t);
+        let p = Box::into_raw(b);
+        self.0.push(p);
+        unsafe { &*p }
+    }
+    pub fn free(self) {
+        for p in self.0.into_iter().rev() {
+            unsafe { drop(Box::from_raw(p)) }
+        }
+    }
+}
+struct RawBytes(Vec<u8>);
+impl Aml for RawBytes {
+    fn to_aml_bytes(&self, sink: &mut dyn AmlSink) {
+        sink.vec(&self.0)
+    }
+}
+
+/// A child position: in native mode the crate's own object for the child (what callers normally pass), otherwise a
+/// `Node` -- a user-defined `Aml` implementor that only knows how to serialise itself.
+fn child(v: &Value, native: bool, arena: &mut Arena) -> &'static dyn Aml {
+    if native {
+        build(v, true, arena)
+    } else {
+        arena.keep(Node(v.clone()))
+    }
+}
+fn kids(x: &Value, k: &str, native: bool, arena: &mut Arena) -> Vec<&'static dyn Aml> {
+    list(x, k).iter().map(|c| child(c, native, arena)).collect()
+}
+
 impl Aml for Node {
     fn to_aml_bytes(&self, sink: &mut dyn AmlSink) {
-        let x = &self.0;
+        let mut arena = Arena::new();
+        build(&self.0, false, &mut arena).to_aml_bytes(sink);
+        arena.free();
+    }
+}
+
+/// The same tree with every node the crate's own object (the root of a native build, usable wherever a `&dyn Aml` is wanted).
+pub struct NativeNode(pub Value);
+impl Aml for NativeNode {
+    fn to_aml_bytes(&self, sink: &mut dyn AmlSink) {
+        let mut arena = Arena::new();
+        build(&self.0, true, &mut arena).to_aml_bytes(sink);
+        arena.free();
+    }
+}
+
+/// The crate's object for a term tree.
+pub fn build(x: &Value, native: bool, arena: &mut Arena) -> &'static dyn Aml {
+    {
         let t = str_of(get(x, "t"));
-        let n = |k: &str| Node(get(x, k).clone());
+        macro_rules! n {
+            ($k:expr) => {
+                child(get(x, $k), native, arena)
+            };
+        }
         match t {
-            "Zero" => aml::ZERO.to_aml_bytes(sink),
-            "One" => aml::ONE.to_aml_bytes(sink),
-            "Ones" => aml::ONES.to_aml_bytes(sink),
+            "Zero" => keep!(arena, aml::ZERO),
+            "One" => keep!(arena, aml::ONE),
+            "Ones" => keep!(arena, aml::ONES),
             "Int" => {
                 let v = u64_of(get(x, "v"));
                 match str_of(get(x, "ty")) {
-                    "u8" => (v as u8).to_aml_bytes(sink),
-                    "u16" => (v as u16).to_aml_bytes(sink),
-                    "u32" => (v as u32).to_aml_bytes(sink),
-                    "u64" => v.to_aml_bytes(sink),
-                    "usize" => (v as usize).to_aml_bytes(sink),
+                    "u8" => keep!(arena, (v as u8)),
+                    "u16" => keep!(arena, (v as u16)),
+                    "u32" => keep!(arena, (v as u32)),
+                    "u64" => keep!(arena, v),
+                    "usize" => keep!(arena, (v as usize)),
                     ty => panic!("int type {ty}"),
                 }
             }
             "Str" => {
                 let s = s_of(get(x, "s"));
                 if x.get("owned").map(bool_of).unwrap_or(false) {
-                    s.to_aml_bytes(sink)
+                    keep!(arena, s)
                 } else {
                     let st: &'static str = Box::leak(s.into_boxed_str());
-                    st.to_aml_bytes(sink)
+                    keep!(arena, st)
                 }
             }
-            "Path" => aml::Path::new(&s_of(get(x, "s"))).to_aml_bytes(sink),
-            "Eisa" => aml::EISAName::new(&s_of(get(x, "s"))).to_aml_bytes(sink),
-            "Name" => aml::Name::new(path(x), &n("v")).to_aml_bytes(sink),
-            "FieldName" => aml::Name::new_field_name(&s_of(get(x, "s"))).to_aml_bytes(sink),
+            "Path" => keep!(arena, aml::Path::new(&s_of(get(x, "s")))),
+            "Eisa" => keep!(arena, aml::EISAName::new(&s_of(get(x, "s")))),
+            "Name" => keep!(arena, aml::Name::new(path(x), n!("v"))),
+            "FieldName" => keep!(arena, aml::Name::new_field_name(&s_of(get(x, "s")))),
             "Package" => {
-                let ch = kids(x, "ch");
-                aml::Package::new(refs(&ch)).to_aml_bytes(sink)
+                let ch = kids(x, "ch", native, arena);
+                keep!(arena, aml::Package::new(ch))
             }
             "PackageBuilder" => {
                 let mut pb = if x.get("default").map(bool_of).unwrap_or(false) { aml::PackageBuilder::default() } else { aml::PackageBuilder::new() };
-                for c in kids(x, "ch") {
-                    pb.add_element(&c);
+                for c in kids(x, "ch", native, arena) {
+                    pb.add_element(c);
                 }
-                pb.to_aml_bytes(sink)
+                keep!(arena, pb)
             }
-            "VarPackage" => aml::VarPackageTerm::new(&n("v")).to_aml_bytes(sink),
-            "BufferData" => aml::BufferData::new(bytes_of(get(x, "d"))).to_aml_bytes(sink),
-            "BufferFill" => aml::BufferData::new(vec![u8_of(get(x, "b")); u64_of(get(x, "n")) as usize]).to_aml_bytes(sink),
-            "BufferTerm" => aml::BufferTerm::new(&n("v")).to_aml_bytes(sink),
-            "Uuid" => aml::Uuid::new(&s_of(get(x, "s"))).to_aml_bytes(sink),
+            "VarPackage" => keep!(arena, aml::VarPackageTerm::new(n!("v"))),
+            "BufferData" => keep!(arena, aml::BufferData::new(bytes_of(get(x, "d")))),
+            "BufferFill" => keep!(arena, aml::BufferData::new(vec![u8_of(get(x, "b")); u64_of(get(x, "n")) as usize])),
+            "BufferTerm" => keep!(arena, aml::BufferTerm::new(n!("v"))),
+            "Uuid" => keep!(arena, aml::Uuid::new(&s_of(get(x, "s")))),
             "ResourceTemplate" => {
-                let ch = kids(x, "ch");
-                aml::ResourceTemplate::new(refs(&ch)).to_aml_bytes(sink)
+                let ch = kids(x, "ch", native, arena);
+                keep!(arena, aml::ResourceTemplate::new(ch))
             }
-            "Memory32Fixed" => aml::Memory32Fixed::new(bool_of(get(x, "rw")), u32_of(get(x, "base")), u32_of(get(x, "len"))).to_aml_bytes(sink),
-            "IO" => aml::IO::new(u16_of(get(x, "min")), u16_of(get(x, "max")), u8_of(get(x, "align")), u8_of(get(x, "len"))).to_aml_bytes(sink),
-            "Interrupt" => aml::Interrupt::new(bool_of(get(x, "consumer")), bool_of(get(x, "edge")), bool_of(get(x, "low")), bool_of(get(x, "shared")), u32_of(get(x, "num"))).to_aml_bytes(sink),
-            "Register" => aml::Register::new(mk_gas(get(x, "reg"))).to_aml_bytes(sink),
-            "AddrSpace" => addr_space(x, sink),
+            "Memory32Fixed" => keep!(arena, aml::Memory32Fixed::new(bool_of(get(x, "rw")), u32_of(get(x, "base")), u32_of(get(x, "len")))),
+            "IO" => keep!(arena, aml::IO::new(u16_of(get(x, "min")), u16_of(get(x, "max")), u8_of(get(x, "align")), u8_of(get(x, "len")))),
+            "Interrupt" => keep!(arena, aml::Interrupt::new(bool_of(get(x, "consumer")), bool_of(get(x, "edge")), bool_of(get(x, "low")), bool_of(get(x, "shared")), u32_of(get(x, "num")))),
+            "Register" => keep!(arena, aml::Register::new(mk_gas(get(x, "reg")))),
+            "AddrSpace" => addr_space(x, arena),
             "Device" => {
-                let ch = kids(x, "ch");
-                aml::Device::new(path(x), refs(&ch)).to_aml_bytes(sink)
+                let ch = kids(x, "ch", native, arena);
+                keep!(arena, aml::Device::new(path(x), ch))
             }
             "Scope" => {
-                let ch = kids(x, "ch");
-                aml::Scope::new(path(x), refs(&ch)).to_aml_bytes(sink)
+                let ch = kids(x, "ch", native, arena);
+                keep!(arena, aml::Scope::new(path(x), ch))
             }
             "ScopeRaw" => {
                 let mut body = Vec::new();
-                for c in kids(x, "ch") {
+                for c in kids(x, "ch", native, arena) {
                     c.to_aml_bytes(&mut body);
                 }
-                sink.vec(&aml::Scope::raw(path(x), body))
+                keep!(arena, RawBytes(aml::Scope::raw(path(x), body)))
             }
             "Method" => {
-                let ch = kids(x, "ch");
-                aml::Method::new(path(x), u8_of(get(x, "args")), bool_of(get(x, "ser")), refs(&ch)).to_aml_bytes(sink)
+                let ch = kids(x, "ch", native, arena);
+                keep!(arena, aml::Method::new(path(x), u8_of(get(x, "args")), bool_of(get(x, "ser")), ch))
             }
             "PowerResource" => {
-                let ch = kids(x, "ch");
-                aml::PowerResource::new(path(x), u8_of(get(x, "level")), u16_of(get(x, "order")), refs(&ch)).to_aml_bytes(sink)
+                let ch = kids(x, "ch", native, arena);
+                keep!(arena, aml::PowerResource::new(path(x), u8_of(get(x, "level")), u16_of(get(x, "order")), ch))
             }
             "Field" => {
                 use aml::{FieldAccessType as A, FieldEntry, FieldLockRule as L, FieldUpdateRule as U};
@@ -132,7 +194,7 @@ impl Aml for Node {
                         _ => FieldEntry::Reserved(u64_of(get(f, "bits")) as usize),
                     })
                     .collect();
-                aml::Field::new(path(x), access, lock, update, fields).to_aml_bytes(sink)
+                keep!(arena, aml::Field::new(path(x), access, lock, update, fields))
             }
             "OpRegion" => {
                 use aml::OpRegionSpace as S;
@@ -149,55 +211,55 @@ impl Aml for Node {
                     "GenericSerialBus" => S::GenericSerialBus,
                     a => panic!("space {a}"),
                 };
-                aml::OpRegion::new(path(x), space, &n("off"), &n("len")).to_aml_bytes(sink)
+                keep!(arena, aml::OpRegion::new(path(x), space, n!("off"), n!("len")))
             }
-            "Mutex" => aml::Mutex::new(path(x), u8_of(get(x, "sync"))).to_aml_bytes(sink),
-            "Acquire" => aml::Acquire::new(path(x), u16_of(get(x, "timeout"))).to_aml_bytes(sink),
-            "Release" => aml::Release::new(path(x)).to_aml_bytes(sink),
+            "Mutex" => keep!(arena, aml::Mutex::new(path(x), u8_of(get(x, "sync")))),
+            "Acquire" => keep!(arena, aml::Acquire::new(path(x), u16_of(get(x, "timeout")))),
+            "Release" => keep!(arena, aml::Release::new(path(x))),
             "If" => {
-                let ch = kids(x, "ch");
-                aml::If::new(&n("p"), refs(&ch)).to_aml_bytes(sink)
+                let ch = kids(x, "ch", native, arena);
+                keep!(arena, aml::If::new(n!("p"), ch))
             }
             "Else" => {
-                let ch = kids(x, "ch");
-                aml::Else::new(refs(&ch)).to_aml_bytes(sink)
+                let ch = kids(x, "ch", native, arena);
+                keep!(arena, aml::Else::new(ch))
             }
             "While" => {
-                let ch = kids(x, "ch");
-                aml::While::new(&n("p"), refs(&ch)).to_aml_bytes(sink)
+                let ch = kids(x, "ch", native, arena);
+                keep!(arena, aml::While::new(n!("p"), ch))
             }
             "Cmp" => {
-                let (l, r) = (n("l"), n("r"));
+                let (l, r) = (n!("l"), n!("r"));
                 match str_of(get(x, "op")) {
-                    "Equal" => aml::Equal::new(&l, &r).to_aml_bytes(sink),
-                    "LessThan" => aml::LessThan::new(&l, &r).to_aml_bytes(sink),
-                    "GreaterThan" => aml::GreaterThan::new(&l, &r).to_aml_bytes(sink),
-                    "NotEqual" => aml::NotEqual::new(&l, &r).to_aml_bytes(sink),
-                    "GreaterEqual" => aml::GreaterEqual::new(&l, &r).to_aml_bytes(sink),
-                    "LessEqual" => aml::LessEqual::new(&l, &r).to_aml_bytes(sink),
+                    "Equal" => keep!(arena, aml::Equal::new(l, r)),
+                    "LessThan" => keep!(arena, aml::LessThan::new(l, r)),
+                    "GreaterThan" => keep!(arena, aml::GreaterThan::new(l, r)),
+                    "NotEqual" => keep!(arena, aml::NotEqual::new(l, r)),
+                    "GreaterEqual" => keep!(arena, aml::GreaterEqual::new(l, r)),
+                    "LessEqual" => keep!(arena, aml::LessEqual::new(l, r)),
                     o => panic!("cmp {o}"),
                 }
             }
-            "Arg" => aml::Arg(u8_of(get(x, "n"))).to_aml_bytes(sink),
-            "Local" => aml::Local(u8_of(get(x, "n"))).to_aml_bytes(sink),
-            "Store" => aml::Store::new(&n("name"), &n("value")).to_aml_bytes(sink),
-            "Notify" => aml::Notify::new(&n("obj"), &n("value")).to_aml_bytes(sink),
+            "Arg" => keep!(arena, aml::Arg(u8_of(get(x, "n")))),
+            "Local" => keep!(arena, aml::Local(u8_of(get(x, "n")))),
+            "Store" => keep!(arena, aml::Store::new(n!("name"), n!("value"))),
+            "Notify" => keep!(arena, aml::Notify::new(n!("obj"), n!("value"))),
             "Un" => {
-                let a = n("a");
+                let a = n!("a");
                 match str_of(get(x, "op")) {
-                    "ObjectType" => aml::ObjectType::new(&a).to_aml_bytes(sink),
-                    "SizeOf" => aml::SizeOf::new(&a).to_aml_bytes(sink),
-                    "Return" => aml::Return::new(&a).to_aml_bytes(sink),
-                    "DeRefOf" => aml::DeRefOf::new(&a).to_aml_bytes(sink),
+                    "ObjectType" => keep!(arena, aml::ObjectType::new(a)),
+                    "SizeOf" => keep!(arena, aml::SizeOf::new(a)),
+                    "Return" => keep!(arena, aml::Return::new(a)),
+                    "DeRefOf" => keep!(arena, aml::DeRefOf::new(a)),
                     o => panic!("un {o}"),
                 }
             }
             "Bin" => {
-                let (tg, a, b) = (n("target"), n("a"), n("b"));
+                let (tg, a, b) = (n!("target"), n!("a"), n!("b"));
                 macro_rules! bin {
                     ($($name:ident),*) => {
                         match str_of(get(x, "op")) {
-                            $(stringify!($name) => aml::$name::new(&tg, &a, &b).to_aml_bytes(sink),)*
+                            $(stringify!($name) => keep!(arena, aml::$name::new(tg, a, b)),)*
                             o => panic!("bin {o}"),
                         }
                     };
@@ -205,18 +267,18 @@ impl Aml for Node {
                 bin!(Add, Concat, Subtract, Multiply, ShiftLeft, ShiftRight, And, Nand, Or, Nor, Xor, ConcatRes, Mod, Index, ToString, CreateDWordField, CreateQWordField)
             }
             "Conv" => {
-                let (tg, a) = (n("target"), n("a"));
+                let (tg, a) = (n!("target"), n!("a"));
                 match str_of(get(x, "op")) {
-                    "ToBuffer" => aml::ToBuffer::new(&tg, &a).to_aml_bytes(sink),
-                    "ToInteger" => aml::ToInteger::new(&tg, &a).to_aml_bytes(sink),
+                    "ToBuffer" => keep!(arena, aml::ToBuffer::new(tg, a)),
+                    "ToInteger" => keep!(arena, aml::ToInteger::new(tg, a)),
                     o => panic!("conv {o}"),
                 }
             }
-            "CreateField" => aml::CreateField::new(&n("name"), &n("src"), &n("idx"), &n("nbits")).to_aml_bytes(sink),
-            "Mid" => aml::Mid::new(&n("src"), &n("idx"), &n("len"), &n("res")).to_aml_bytes(sink),
+            "CreateField" => keep!(arena, aml::CreateField::new(n!("name"), n!("src"), n!("idx"), n!("nbits"))),
+            "Mid" => keep!(arena, aml::Mid::new(n!("src"), n!("idx"), n!("len"), n!("res"))),
             "MethodCall" => {
-                let args = kids(x, "args");
-                aml::MethodCall::new(path(x), refs(&args)).to_aml_bytes(sink)
+                let args = kids(x, "args", native, arena);
+                keep!(arena, aml::MethodCall::new(path(x), args))
             }
             o => panic!("unknown aml node {o}"),
         }
@@ -234,7 +296,7 @@ fn cacheable(s: &str) -> aml::AddressSpaceCacheable {
     }
 }
 
-fn addr_space(x: &Value, sink: &mut dyn AmlSink) {
+fn addr_space(x: &Value, arena: &mut Arena) -> &'static dyn Aml {
     let w = u64_of(get(x, "w"));
     let kind = str_of(get(x, "kind"));
     macro_rules! go {
@@ -248,7 +310,7 @@ fn addr_space(x: &Value, sink: &mut dyn AmlSink) {
                 "bus" => aml::AddressSpace::new_bus_number(min, max),
                 k => panic!("addr kind {k}"),
             };
-            a.to_aml_bytes(sink)
+            keep!(arena, a)
         }};
     }
     match w {
@@ -260,18 +322,26 @@ fn addr_space(x: &Value, sink: &mut dyn AmlSink) {
 }
 
 pub fn encode(tree: &Value) -> Result<Vec<u8>, ()> {
-    guarded(|| {
+    encode_mode(tree, true)
+}
+
+/// native: every node is the crate's own object; otherwise every child is a `Node` wrapper
+pub fn encode_mode(tree: &Value, native: bool) -> Result<Vec<u8>, ()> {
+    let mut arena = Arena::new();
+    let r = guarded(|| {
         let mut v = Vec::new();
-        Node(tree.clone()).to_aml_bytes(&mut v);
+        build(tree, native, &mut arena).to_aml_bytes(&mut v);
         v
-    })
+    });
+    arena.free();
+    r
 }
 
 /// {"fam":"aml","tree":..,"arities":[..]}: one event with the bytes the tree serialises to.
 /// Large outputs may be summarised (`head`/`tail`/`len`) when the program asks for it.
 pub fn exec(run: u64, prog: &Value, out: &mut Out) {
     let tree = get(prog, "tree");
-    let r = encode(tree);
+    let r = encode_mode(tree, prog.get("native").map(bool_of).unwrap_or(true));
     let (bytes, panicked) = match r {
         Ok(b) => (b, false),
         Err(()) => (vec![], true),
@@ -484,7 +554,7 @@ pub fn exec_pb(run: u64, prog: &Value, out: &mut Out) {
             "add" => {
                 let tree = get(op, "tree");
                 let elem = encode(tree).unwrap_or_default(); // the element serialised on its own (vector sink)
-                let r = guarded(|| pb.add_element(&Node(tree.clone())));
+                let r = guarded(|| if run % 2 == 0 { pb.add_element(&NativeNode(tree.clone())) } else { pb.add_element(&Node(tree.clone())) });
                 let b = ser(&pb);
                 let panicked = r.is_err() || b.is_err();
                 out.emit(json!({"ev":"pb_add","run":run,"tree":tree,"elem":jbytes(&elem),"bytes":jbytes(&b.clone().unwrap_or_default()),
